@@ -19,6 +19,7 @@ import Y0.Lemmas.CtfFactor
 import Y0.Lemmas.CtfAncSpec
 import Y0.Lemmas.CtfDenValue
 import Y0.Lemmas.CtfCond
+import Y0.Lemmas.CtfSimplifyRefl
 
 namespace Y0.Ctf
 open Relation Y0.MG
@@ -930,6 +931,383 @@ theorem simplify_factorize_den_partial (g : MG Name) (hg : g.WF) (e e' : Event) 
   rw [factorisation_den_partial g hg e' expr ev hf hread hclass M hM hnorm card hcard ν]
   exact (simplify_prob_partial g e e' hs hrefl hval M hM ν hν).symm
 
+/-! ### SIMPLIFY on ALL events, under y0's reading of self-intervened variables
+
+The two findings `simplify-reflexive:*` are not two bugs but one READING: y0 (source comment "Y_y and Y are the same",
+pinned by `test_simplify_y`) takes `Y_{..y..} = y` to be the event `Y = y`, where Algorithm 1 of the paper (and y0's own
+ID*) remove it as a tautology.  `y0Read` (Y0/Spec/CtfSem.lean) rewrites an event that way.  The next theorems are the
+FULL statement of the SIMPLIFY clause relative to that reading: for EVERY event (self-intervened variables included)
+SIMPLIFY preserves the probability of the event as y0 reads it, and answers `None` only when the event so read is
+impossible.  So the whole deviation from the property is the reading of `Y_y`. -/
+
+theorem optMapM_total {α β : Type} (f : α → Option β) (l : List α) (h : ∀ x ∈ l, ∃ y, f x = some y) :
+    ∃ r, l.mapM f = some r ∧ ∀ y, y ∈ r ↔ ∃ x ∈ l, f x = some y := by
+  induction l with
+  | nil => exact ⟨[], rfl, by simp⟩
+  | cons a l ih =>
+    obtain ⟨r, hr, hmem⟩ := ih (fun x hx => h x (by simp [hx]))
+    obtain ⟨b, hb⟩ := h a (by simp)
+    refine ⟨b :: r, by simp [List.mapM_cons, hb, hr], fun y => ?_⟩
+    simp only [List.mem_cons, hmem, exists_eq_or_imp, hb, Option.some.injEq]
+    constructor
+    · rintro (rfl | h') <;> [exact Or.inl rfl; exact Or.inr h']
+    · rintro (h' | h') <;> [exact Or.inl h'.symm; exact Or.inr h']
+
+theorem optMapM_none {α β : Type} (f : α → Option β) (l : List α) (h : ∃ x ∈ l, f x = none) :
+    l.mapM f = none := by
+  induction l with
+  | nil => obtain ⟨x, hx, _⟩ := h; cases hx
+  | cons a l ih =>
+    obtain ⟨x, hx, hfx⟩ := h
+    cases ha : f a with
+    | none => simp [List.mapM_cons, ha]
+    | some b =>
+      rcases List.mem_cons.1 hx with rfl | hx'
+      · rw [ha] at hfx; cases hfx
+      · simp [List.mapM_cons, ha, ih ⟨x, hx', hfx⟩]
+
+theorem selfIntervened_iff (v : Var) : selfIntervened v = true ↔ v.name ∈ subNames v := by
+  simp only [selfIntervened, List.any_eq_true, beq_iff_eq, subNames, List.mem_map]
+
+/-- minimisation keeps a variable self-intervened or not -/
+theorem minimize_self (g : MG Name) (v w : Var) (h : minimize g v = .ok w) :
+    selfIntervened w = selfIntervened v := by
+  rcases minimize_eq g v w h with ⟨_, rfl⟩ | ⟨hcf, A, hA, hw⟩
+  · rfl
+  · have hmin := minimize_spec g v w hcf h
+    rw [Bool.eq_iff_iff, selfIntervened_iff, selfIntervened_iff, hmin.1]
+    simp only [subNames, List.mem_map]
+    constructor
+    · rintro ⟨i, hi, hin⟩; exact ⟨i, ((hmin.2.2 i).1 hi).1, hin⟩
+    · rintro ⟨i, hi, hin⟩
+      exact ⟨i, (hmin.2.2 i).2 ⟨hi, by rw [hin]; exact ReflTransGen.refl⟩, hin⟩
+
+/-- `‖Y_{..y..}‖ = Y_y`: a self-intervened variable minimises to its self-intervention alone -/
+theorem minimize_self_ivs (g : MG Name) (v w : Var) (h : minimize g v = .ok w) (hs : selfIntervened v = true)
+    (hnd : (subNames v).Nodup) : ∃ j, w.ivs = [j] ∧ j ∈ v.ivs ∧ j.name = v.name := by
+  have hcf : v.isCf = true := selfIntervened_isCf v hs
+  have hmin := minimize_spec g v w hcf h
+  obtain ⟨j, hj, hjn⟩ := List.mem_map.1 ((selfIntervened_iff v).1 hs)
+  have hjw : j ∈ w.ivs := (hmin.2.2 j).2 ⟨hj, by rw [hjn]; exact ReflTransGen.refl⟩
+  -- every surviving subscript is on the variable itself
+  have hall : ∀ i ∈ w.ivs, i.name = v.name := by
+    intro i hi
+    obtain ⟨_, hanc⟩ := (hmin.2.2 i).1 hi
+    unfold AncBar at hanc
+    rcases ReflTransGen.cases_tail hanc with heq | ⟨b, _, hbv⟩
+    · exact heq.symm
+    · exact absurd ((selfIntervened_iff v).1 hs) hbv.2
+  -- and the subscript names are distinct
+  have hsub : w.ivs.Sublist v.ivs := by
+    rcases minimize_eq g v w h with ⟨hc, _⟩ | ⟨_, A, _, hw⟩
+    · rw [hcf] at hc; cases hc
+    · rw [hw]; exact List.filter_sublist
+  have hnw : (w.ivs.map (·.name)).Nodup := hnd.sublist (hsub.map _)
+  refine ⟨j, ?_, hj, hjn⟩
+  match hw : w.ivs, hjw, hall, hnw with
+  | [a], hjw, _, _ => simp only [List.mem_singleton] at hjw; rw [hjw]
+  | a :: b :: rest, _, hall, hnw =>
+    exfalso
+    have ha := hall a (by simp)
+    have hb := hall b (by simp)
+    simp only [List.map_cons, List.nodup_cons, List.mem_cons, not_or] at hnw
+    exact hnw.1.1 (by rw [ha, hb])
+
+/-- pointwise content of the two theorems below -/
+theorem simplify_pointwise_y0 (g : MG Name) (e : Event)
+    (hnd : ∀ p ∈ e, (subNames p.1).Nodup)
+    (hval : ∀ p ∈ e, ∀ i, p.2 = some i → i.name = p.1.name)
+    (M : Fscm.Model) (hM : Fscm.Compatible M g) (ν : Fscm.BaseValues) (hν : ν.Distinct) :
+    (simplify g e = .ok none → y0Read e = none ∨ ∃ e₀, y0Read e = some e₀ ∧ ∀ u, ¬ EventHolds M ν u e₀) ∧
+    (∀ e', simplify g e = .ok (some e') →
+      ∃ e₀, y0Read e = some e₀ ∧ ∀ u, EventHolds M ν u e₀ ↔ EventHolds M ν u e') := by
+  -- what the event means once it is read
+  have hread : ∀ e₀, y0Read e = some e₀ → (∀ q, q ∈ e₀ ↔ ∃ p ∈ e, y0ReadItem p = some q) := by
+    intro e₀ he₀
+    have hall : ∀ p ∈ e, ∃ q, y0ReadItem p = some q := by
+      intro p hp
+      cases hq : y0ReadItem p with
+      | some q => exact ⟨q, rfl⟩
+      | none =>
+        have := optMapM_none y0ReadItem e ⟨p, hp, hq⟩
+        unfold y0Read at he₀
+        rw [this] at he₀; cases he₀
+    obtain ⟨r, hr, hmem⟩ := optMapM_total y0ReadItem e hall
+    unfold y0Read at he₀
+    rw [hr] at he₀
+    cases he₀
+    exact hmem
+  have hholds₀ : ∀ e₀, y0Read e = some e₀ → ∀ u, EventHolds M ν u e₀ ↔
+      ∀ p ∈ e, ∀ i, p.2 = some i →
+        Fscm.solve M u (if selfIntervened p.1 then [] else Fscm.worldOf ν p.1.ivs) p.1.name = Fscm.ivValue ν i := by
+    intro e₀ he₀ u
+    have hmem := hread e₀ he₀
+    constructor
+    · intro h p hp i hi
+      have hq : ∃ q, y0ReadItem p = some q := by
+        cases hq : y0ReadItem p with
+        | some q => exact ⟨q, rfl⟩
+        | none =>
+          have := optMapM_none y0ReadItem e ⟨p, hp, hq⟩
+          unfold y0Read at he₀
+          rw [this] at he₀; cases he₀
+      obtain ⟨q, hq⟩ := hq
+      have hqe := (hmem q).2 ⟨p, hp, hq⟩
+      unfold y0ReadItem at hq
+      by_cases hs : selfIntervened p.1 = true
+      · have hs' : (p.1.ivs.any fun i => i.name == p.1.name) = true := hs
+        simp only [hs', ↓reduceIte, hi] at hq
+        split at hq
+        · simp only [Option.some.injEq] at hq
+          subst hq
+          have := h _ hqe i rfl
+          simpa [hs, Fscm.worldOf] using this
+        · cases hq
+      · have hs' : (p.1.ivs.any fun i => i.name == p.1.name) = false := by simpa [selfIntervened] using hs
+        simp only [hs', Bool.false_eq_true, ↓reduceIte, Option.some.injEq] at hq
+        subst hq
+        have := h _ hqe i hi
+        simpa [hs] using this
+    · intro h q hq i hi
+      obtain ⟨p, hp, hpq⟩ := (hmem q).1 hq
+      unfold y0ReadItem at hpq
+      by_cases hs : selfIntervened p.1 = true
+      · have hs' : (p.1.ivs.any fun i => i.name == p.1.name) = true := hs
+        simp only [hs', ↓reduceIte] at hpq
+        cases hx : p.2 with
+        | none =>
+          rw [hx] at hpq
+          simp only [Option.some.injEq] at hpq
+          subst hpq
+          cases hi
+        | some i' =>
+          rw [hx] at hpq
+          simp only at hpq
+          split at hpq
+          · simp only [Option.some.injEq] at hpq
+            subst hpq
+            simp only [Option.some.injEq] at hi
+            subst hi
+            have := h p hp i' hx
+            simpa [hs, Fscm.worldOf] using this
+          · cases hpq
+      · have hs' : (p.1.ivs.any fun i => i.name == p.1.name) = false := by simpa [selfIntervened] using hs
+        simp only [hs', Bool.false_eq_true, ↓reduceIte, Option.some.injEq] at hpq
+        subst hpq
+        have := h p hp i hi
+        simpa [hs] using this
+  unfold simplify
+  split
+  · simp [bind, Except.bind, throw, throwThe, MonadExceptOf.throw]
+  · simp only [bind, Except.bind]
+    cases hme : minimizeEvent g e with
+    | error err => simp
+    | ok me =>
+      simp only
+      have hmem := minimizeEvent_mem g e me hme
+      have hmin_ok : ∀ p ∈ e, ∃ k, minimize g p.1 = .ok k ∧ (k, p.2) ∈ me := by
+        rintro ⟨v, x⟩ hp
+        cases hm : minimize g v with
+        | ok k => exact ⟨k, rfl, (hmem k x).2 ⟨v, hp, hm⟩⟩
+        | error err =>
+          exfalso
+          have : ∀ (l : Event) (r : Event), (v, x) ∈ l →
+              l.mapM (fun p => do pure (← minimize g p.1, p.2)) ≠ .ok r := by
+            intro l
+            induction l with
+            | nil => intro r hin; cases hin
+            | cons q l ih =>
+              intro r hin hok
+              simp only [List.mapM_cons, bind, Except.bind] at hok
+              rcases List.mem_cons.1 hin with rfl | hin'
+              · simp only [hm] at hok; cases hok
+              · cases hq : minimize g q.1 with
+                | error e2 => rw [hq] at hok; cases hok
+                | ok k2 =>
+                  rw [hq] at hok
+                  simp only [pure, Except.pure] at hok
+                  cases hl : l.mapM (fun p => do pure (← minimize g p.1, p.2)) with
+                  | error e3 =>
+                    simp only [bind, Except.bind, pure, Except.pure] at hl
+                    rw [hl] at hok; cases hok
+                  | ok r' => exact ih r' hin' hl
+          exact this e me hp hme
+      -- the hypothesis of the combinatorial core
+      have hone : ∀ p ∈ me, selfIntervened p.1 = true → ∃ j, p.1.ivs = [j] := by
+        rintro ⟨k, x⟩ hp hs
+        obtain ⟨v, hv, hm⟩ := (hmem k x).1 hp
+        have hsv : selfIntervened v = true := by rw [← minimize_self g v k hm]; exact hs
+        obtain ⟨j, hj, _⟩ := minimize_self_ivs g v k hm hsv (hnd (v, x) hv)
+        exact ⟨j, hj⟩
+      obtain ⟨hnone, hsome⟩ := simplifyCore_spec_gen me hone
+      -- the value of an item of the event as SIMPLIFY reads it
+      have hrdval : ∀ k i u, (k, some i) ∈ rd me → (∀ p ∈ e, ∀ i, p.2 = some i →
+          Fscm.solve M u (if selfIntervened p.1 then [] else Fscm.worldOf ν p.1.ivs) p.1.name = Fscm.ivValue ν i) →
+          Fscm.solve M u (Fscm.worldOf ν k.ivs) k.name = Fscm.ivValue ν i := by
+        intro k i u hk hall
+        obtain ⟨⟨w, x⟩, hp, hkw, hx⟩ := (mem_rd me k (some i)).1 hk
+        simp only at hkw hx
+        subst hx
+        obtain ⟨v, hv, hm⟩ := (hmem w (some i)).1 hp
+        have hself := minimize_self g v w hm
+        have := hall (v, some i) hv i rfl
+        simp only at this
+        by_cases hs : selfIntervened v = true
+        · rw [← hkw]
+          simp only [rkey, hself, hs, ↓reduceIte, Var.base]
+          simp only [hs, ↓reduceIte] at this
+          rw [(minimize_wf g v w hm).1]
+          simpa [Fscm.worldOf] using this
+        · have hs' : selfIntervened v = false := by simpa using hs
+          rw [← hkw]
+          simp only [rkey, hself, hs', Bool.false_eq_true, ↓reduceIte]
+          simp only [hs', Bool.false_eq_true, ↓reduceIte] at this
+          rw [← minimize_same_rv g v w hm M hM ν u]
+          exact this
+      constructor
+      · intro hc
+        rcases hnone hc with ⟨⟨w, x⟩, hp, hs, i, j, hx, hj, hij⟩ | ⟨k, i, j, hij, hi, hj⟩
+        · -- a self-intervened variable with a value that is not its subscript: impossible already for y0Read
+          left
+          simp only at hs hx hj
+          subst hx
+          obtain ⟨v, hv, hm⟩ := (hmem w (some i)).1 hp
+          have hsv : selfIntervened v = true := by rw [← minimize_self g v w hm]; exact hs
+          obtain ⟨j', hj', hjv, hjn⟩ := minimize_self_ivs g v w hm hsv (hnd (v, some i) hv)
+          rw [hj] at hj'
+          simp only [List.cons.injEq, and_true] at hj'
+          subst hj'
+          apply optMapM_none
+          refine ⟨(v, some i), hv, ?_⟩
+          unfold y0ReadItem
+          have hs' : (v.ivs.any fun i => i.name == v.name) = true := hsv
+          simp only [hs', ↓reduceIte]
+          split
+          · rename_i hin
+            exfalso
+            simp only [List.any_eq_true, decide_eq_true_eq] at hin
+            obtain ⟨i', hi', rfl⟩ := hin
+            -- `i'` and `j` are both subscripts of `v` on `v` itself
+            have hname : i'.name = j.name := by
+              rw [hval (v, some i') hv i' rfl, hjn]
+            have hidx : ∀ (l : List Iv), (l.map (·.name)).Nodup → ∀ a ∈ l, ∀ b ∈ l, a.name = b.name → a = b := by
+              intro l
+              induction l with
+              | nil => intro _ a ha; cases ha
+              | cons c l ih =>
+                intro hn a ha b hb hab
+                simp only [List.map_cons, List.nodup_cons] at hn
+                rcases List.mem_cons.1 ha with rfl | ha'
+                · rcases List.mem_cons.1 hb with rfl | hb'
+                  · rfl
+                  · exact absurd (List.mem_map.2 ⟨b, hb', hab.symm⟩) hn.1
+                · rcases List.mem_cons.1 hb with rfl | hb'
+                  · exact absurd (List.mem_map.2 ⟨a, ha', hab⟩) hn.1
+                  · exact ih hn.2 a ha' b hb' hab
+            exact hij (hidx v.ivs (hnd (v, some i') hv) i' hi' j hjv hname)
+          · rfl
+        · -- two different values for one variable of the event as read
+          cases he₀ : y0Read e with
+          | none => exact Or.inl rfl
+          | some e₀ =>
+            right
+            refine ⟨e₀, rfl, fun u hu => ?_⟩
+            have hall := (hholds₀ e₀ he₀ u).1 hu
+            have e1 := hrdval k i u hi hall
+            have e2 := hrdval k j u hj hall
+            -- both values are values of the vertex of `k`
+            have hname : ∀ i', (k, some i') ∈ rd me → i'.name = k.name := by
+              intro i' hk'
+              obtain ⟨⟨w, x⟩, hp, hkw, hx⟩ := (mem_rd me k (some i')).1 hk'
+              simp only at hkw hx
+              subst hx
+              obtain ⟨v, hv, hm⟩ := (hmem w (some i')).1 hp
+              rw [hval (v, some i') hv i' rfl, ← (minimize_wf g v w hm).1, ← hkw]
+              unfold rkey
+              split <;> rfl
+            have hn₁ := hname i hi
+            have hn₂ := hname j hj
+            have heq : Fscm.ivValue ν i = Fscm.ivValue ν j := by rw [← e1, ← e2]
+            unfold Fscm.ivValue at heq
+            rw [hn₁, hn₂] at heq
+            have hstar : i.star ≠ j.star := by
+              intro hs
+              apply hij
+              cases i; cases j
+              simp only at hn₁ hn₂ hs
+              subst hs; rw [hn₁, hn₂]
+            cases hi' : i.star <;> cases hj' : j.star <;> simp only [hi', hj'] at heq hstar
+            · exact hstar rfl
+            · exact hν k.name heq
+            · exact hν k.name heq.symm
+            · exact hstar rfl
+      · intro e' hc
+        obtain ⟨hown, hiff⟩ := hsome e' hc
+        -- no item is impossible, so the event has a reading
+        have hall : ∀ p ∈ e, ∃ q, y0ReadItem p = some q := by
+          rintro ⟨v, x⟩ hp
+          unfold y0ReadItem
+          by_cases hs : selfIntervened v = true
+          · have hs' : (v.ivs.any fun i => i.name == v.name) = true := hs
+            simp only [hs', ↓reduceIte]
+            cases x with
+            | none => exact ⟨_, rfl⟩
+            | some i =>
+              obtain ⟨w, hm, hw⟩ := hmin_ok (v, some i) hp
+              have hsw : selfIntervened w = true := by rw [minimize_self g v w hm]; exact hs
+              have hwi := hown (w, some i) hw hsw i rfl
+              have hiv : i ∈ v.ivs := (minimize_wf g v w hm).2.2.1 i (by simp only at hwi; rw [hwi]; simp)
+              have : (v.ivs.any fun j => decide (j = i)) = true := by
+                simp only [List.any_eq_true, decide_eq_true_eq]; exact ⟨i, hiv, rfl⟩
+              simp only [this, ↓reduceIte]
+              exact ⟨_, rfl⟩
+          · have hs' : (v.ivs.any fun i => i.name == v.name) = false := by simpa [selfIntervened] using hs
+            simp only [hs', Bool.false_eq_true, ↓reduceIte]
+            exact ⟨_, rfl⟩
+        obtain ⟨e₀, he₀, _⟩ := optMapM_total y0ReadItem e hall
+        refine ⟨e₀, he₀, fun u => ?_⟩
+        rw [hholds₀ e₀ he₀ u]
+        constructor
+        · rintro h ⟨k, x⟩ hp i hi
+          simp only at hi; subst hi
+          exact hrdval k i u ((hiff k i).1 hp) h
+        · intro h p hp i hi
+          obtain ⟨w, hm, hw⟩ := hmin_ok p hp
+          have hself := minimize_self g p.1 w hm
+          rw [hi] at hw
+          have hrd : (rkey w, some i) ∈ rd me := (mem_rd me _ _).2 ⟨(w, some i), hw, rfl, rfl⟩
+          have := h (rkey w, some i) ((hiff _ i).2 hrd) i rfl
+          simp only at this
+          by_cases hs : selfIntervened p.1 = true
+          · simp only [hs, ↓reduceIte]
+            simp only [rkey, hself, hs, ↓reduceIte, Var.base] at this
+            rw [(minimize_wf g p.1 w hm).1] at this
+            simpa [Fscm.worldOf] using this
+          · have hs' : selfIntervened p.1 = false := by simpa using hs
+            simp only [hs', Bool.false_eq_true, ↓reduceIte]
+            simp only [rkey, hself, hs', Bool.false_eq_true, ↓reduceIte] at this
+            rw [minimize_same_rv g p.1 w hm M hM ν u]
+            exact this
+
+/-- **SIMPLIFY answers 'impossible' only for probability zero — all events, y0's reading of `Y_y`.** -/
+theorem simplify_none_zero_y0reading (g : MG Name) (e : Event) (h : simplify g e = .ok none)
+    (hnd : ∀ p ∈ e, (subNames p.1).Nodup)
+    (hval : ∀ p ∈ e, ∀ i, p.2 = some i → i.name = p.1.name)
+    (M : Fscm.Model) (hM : Fscm.Compatible M g) (ν : Fscm.BaseValues) (hν : ν.Distinct) :
+    y0Read e = none ∨ ∃ e₀, y0Read e = some e₀ ∧ probEventOpt M ν e₀ = 0 := by
+  rcases (simplify_pointwise_y0 g e hnd hval M hM ν hν).1 h with h0 | ⟨e₀, he₀, hnever⟩
+  · exact Or.inl h0
+  · exact Or.inr ⟨e₀, he₀, probEventOpt_zero M ν e₀ hnever⟩
+
+/-- **SIMPLIFY preserves the probability of the event — all events, y0's reading of `Y_y`.** -/
+theorem simplify_prob_y0reading (g : MG Name) (e e' : Event) (h : simplify g e = .ok (some e'))
+    (hnd : ∀ p ∈ e, (subNames p.1).Nodup)
+    (hval : ∀ p ∈ e, ∀ i, p.2 = some i → i.name = p.1.name)
+    (M : Fscm.Model) (hM : Fscm.Compatible M g) (ν : Fscm.BaseValues) (hν : ν.Distinct) :
+    ∃ e₀, y0Read e = some e₀ ∧ probEventOpt M ν e₀ = probEventOpt M ν e' := by
+  obtain ⟨e₀, he₀, hiff⟩ := (simplify_pointwise_y0 g e hnd hval M hM ν hν).2 e' h
+  exact ⟨e₀, he₀, probEventOpt_congr M ν e₀ e' hiff⟩
+
 /-- the two defects that keep the full statement open, as facts about the model: the tautology `Y_y = y` is rewritten to
 `Y = y`, and `Y_y = y ∧ Y = y'` is declared impossible -/
 theorem simplify_reflexive_witness :
@@ -938,6 +1316,13 @@ theorem simplify_reflexive_witness :
     simplify (MG.fromEdges [1] [] []) [({ name := 1, ivs := [⟨1, false⟩] }, some ⟨1, false⟩),
         ({ name := 1 }, some ⟨1, true⟩)] = .ok none := by
   constructor <;> decide
+
+-- y0's reading of the self-intervened items of `test_simplify_y`: event_1 becomes `Y = y`, event_2 is impossible,
+-- event_6 becomes `Y = y ∧ Y = y'`
+example : y0Read [({ name := 1, ivs := [⟨1, false⟩] }, some ⟨1, false⟩)] = some [({ name := 1 }, some ⟨1, false⟩)] := by decide
+example : y0Read [({ name := 1, ivs := [⟨1, false⟩] }, some ⟨1, true⟩)] = none := by decide
+example : y0Read [({ name := 1, ivs := [⟨1, false⟩] }, some ⟨1, false⟩), ({ name := 1 }, some ⟨1, true⟩)] =
+    some [({ name := 1 }, some ⟨1, false⟩), ({ name := 1 }, some ⟨1, true⟩)] := by decide
 
 /-! ## non-vacuity: Figure 2a of Correa, Lee, Bareinboim 2022 (X=0, Y=1, W=2, Z=3) and the F8 witnesses -/
 
